@@ -145,8 +145,12 @@ def _find_in_dirs_and_read(import_dirs):
                     # TODO(bolms): Check if any other files with the same name are in the
                     # import path, and give a warning or error?
                     return f.read(), None
-            except IOError as e:
-                errors.append(str(e))
+            except (IOError, UnicodeError) as e:
+                # UnicodeError: the file exists, but is not valid text.
+                if isinstance(e, UnicodeError):
+                    errors.append("{}: {}".format(full_name, e))
+                else:
+                    errors.append(str(e))
         return None, errors + ["import path " + ":".join(import_dirs)]
 
     return _find_and_read
